@@ -231,7 +231,9 @@ def module_gates(crate):
 
 
 def mentions(crate, enum, variant):
-    """[(gates:frozenset, is_arm:bool, where)] for each mention of Enum::Variant in the crate's sources"""
+    """[(gates:frozenset, is_arm:bool, where, needs:frozenset)] for each mention of Enum::Variant in the crate's sources;
+    needs = the features g written on the arm itself for which the enclosing match has no `#[cfg(not(feature = "g"))]`
+    catch-all arm (so the match is exhaustive only if g is on whenever the variant exists)"""
     pat = re.compile(r"\b%s::%s\b" % (re.escape(enum), re.escape(variant)))
     mg = module_gates(crate)
     res = []
@@ -241,6 +243,39 @@ def mentions(crate, enum, variant):
             continue
         file_gates = mg.get(p, set())
         lines = text.splitlines()
+        depths = []          # brace depth at the start of each line
+        dd = 0
+        for raw in lines:
+            depths.append(dd)
+            c0 = strip_line(raw)
+            dd += c0.count("{") - c0.count("}")
+
+        def fallbacks(i):
+            """features g with `#[cfg(not(feature = "g"))]` + catch-all arm among the sibling arms of line i"""
+            d0 = depths[i]
+            lo = i
+            while lo > 0 and depths[lo - 1] >= d0:
+                lo -= 1
+            hi = i
+            while hi + 1 < len(lines) and depths[hi + 1] >= d0:
+                hi += 1
+            found = set()
+            pend = None
+            for j in range(lo, hi + 1):
+                if depths[j] != d0:
+                    continue
+                sj = strip_line(lines[j]).strip()
+                mn = re.search(r'#\[cfg\(\s*not\(\s*feature\s*=\s*"([^"]+)"\s*\)\s*\)\]', lines[j])
+                if mn and sj.startswith("#["):
+                    pend = mn.group(1)
+                    continue
+                if sj == "" or (sj.startswith("#[") and sj.endswith("]")):
+                    continue
+                if pend and re.match(r"^(_|[a-z_][a-z0-9_]*)\s*(=>|$)", sj):
+                    found.add(pend)
+                pend = None
+            return frozenset(found)
+
         depth = 0
         scopes = []          # (depth_at_open, feature): gate holds while depth > depth_at_open
         pending = set()      # gates from attributes waiting for their item
@@ -260,8 +295,11 @@ def mentions(crate, enum, variant):
             line_gates = fresh | carried
             if pat.search(code):
                 active = {g for _, g in scopes} | line_gates | file_gates
-                res.append((frozenset(active), "=>" in code or s.endswith("|") or s.startswith("|"),
-                            "%s:%d" % (os.path.relpath(p, REPO), i + 1)))
+                is_arm = "=>" in code or s.endswith("|") or s.startswith("|")
+                # an arm needs a twin only if the gate sits on the arm itself: inside a gated block / module the whole
+                # match disappears with the feature
+                res.append((frozenset(active), is_arm, "%s:%d" % (os.path.relpath(p, REPO), i + 1),
+                            (frozenset(fresh) - fallbacks(i)) if is_arm else frozenset()))
             opens, closes = code.count("{"), code.count("}")
             if line_gates:
                 if fresh:
@@ -337,7 +375,7 @@ def coherence_rules(ws):
                 if b["name"] == a["name"] or a["name"] not in reach[b["name"]]:
                     continue
                 ms = mentions(b, enum, variant)
-                for gates, is_arm, wh in ms:
+                for gates, is_arm, wh, fallback in ms:  # fallback = `needs` of mentions()
                     label = "%s::%s" % (enum, variant)
                     if not gates:
                         # named unconditionally: B needs the variant whenever it is compiled
@@ -347,8 +385,8 @@ def coherence_rules(ws):
                         if g not in b["features"]:
                             continue
                         add(b["name"], b["name"], g, a["name"], f, label)      # the mention needs the variant to exist
-                        if is_arm:
-                            add(b["name"], a["name"], f, b["name"], g, label)  # the variant needs its arm
+                        if is_arm and g in fallback:
+                            add(b["name"], a["name"], f, b["name"], g, label)  # the variant needs its arm (no catch-all)
     for r in MACRO_RULES:
         ok = True
         for rel, rx in r["anchors"]:
